@@ -74,6 +74,9 @@ func (a *App) behave(ctx context.Context, call *CallState, rpc string, req proto
 				return nil, fmt.Errorf("sim: plan response does not decode: %w", err)
 			}
 		}
+		if a.k.Plan.SharedMsgs {
+			resp = a.k.sharedMsg("resp|"+rpc, call.Op.RespBin, resp)
+		}
 		return resp, nil
 	case "mock":
 		svc := strings.SplitN(rpc, "/", 2)[0]
